@@ -507,6 +507,8 @@ fn gen_max(r: &mut Rng) -> u32 {
         0..=2 => r.range(7, 40) as u32,
         3..=5 => r.range(MINIMUM as u64, MINIMUM as u64 + 40) as u32,
         6 => 16378,
+        // around 2^16: the PDU length and the PDV item length no longer fit 16 bits
+        7 if r.chance(1, 3) => r.range(65530, 65545) as u32,
         7 => r.range(2000, 9000) as u32,
         _ => r.range(7, 2000) as u32,
     }
@@ -514,8 +516,10 @@ fn gen_max(r: &mut Rng) -> u32 {
 
 fn gen_chunks(r: &mut Rng, max: u32) -> Vec<Vec<u8>> {
     let d = (max.max(7) - 6) as usize;
-    let d_eff = d.min(3000);
+    let big = max >= 60000 && max <= 70000;
+    let d_eff = if big { d } else { d.min(3000) };
     let total = match r.below(8) {
+        _ if big => *r.pick(&[d, d + 1, d - 1, d - 2, d + 7, 2 * d, 2 * d + 1]),
         0 => 0,
         1 => d_eff,
         2 => d_eff + 1,
